@@ -113,6 +113,10 @@ fn drive(cfgv: &Value, wc: WorldCfg, out: &mut impl Write) {
         None => Vec::new(),
     };
     let w_sync = num(cfgv, "w_sync", 0);
+    let w_catchup = num(cfgv, "w_catchup", 0);
+    let w_cut = num(cfgv, "w_cut", 0);
+    let w_del = num(cfgv, "w_del", 3);
+    let cu_garbage = cfgv.get("cu_garbage").and_then(|x| x.as_bool()).unwrap_or(false);
     for t in 0..ntraces {
         let mut run = Run::new(wc.clone());
         writeln!(out, "{}", json!({"a": "Reset", "trace": t})).unwrap();
@@ -160,13 +164,25 @@ fn drive(cfgv: &Value, wc: WorldCfg, out: &mut impl Write) {
         } else { None };
         let cut_from = base + rng.random_range(0..len / 2 + 1);
         let cut_to = cut_from + rng.random_range(0..len / 2 + 1);
+        let mut cuts: std::collections::HashSet<(String, String)> = Default::default();
         for i in base..base + len {
             let active: Vec<String> = nodes.iter().filter(|n| !(late.as_ref() == Some(n) && i < late_until)).cloned().collect();
+            if w_cut > 0 && nodes.len() > 1 && rng.random_range(0..100) < w_cut {
+                let a = nodes.choose(&mut rng).unwrap().clone();
+                let b = nodes.choose(&mut rng).unwrap().clone();
+                if a != b {
+                    let key = if a < b { (a, b) } else { (b, a) };
+                    if !cuts.remove(&key) { cuts.insert(key); }
+                }
+            }
+            let cuts_now = cuts.clone();
             let is_cut = |a: &str, b: &str| -> bool {
+                let key = if a < b { (a.to_string(), b.to_string()) } else { (b.to_string(), a.to_string()) };
+                if cuts_now.contains(&key) { return true; }
                 if let Some((x, y)) = &cut { i >= cut_from && i < cut_to && ((a == x && b == y) || (a == y && b == x)) } else { false }
             };
             let n = active.choose(&mut rng).unwrap().clone();
-            let r = rng.random_range(0..(100 + w_live + w_hb + w_sync));
+            let r = rng.random_range(0..(100 + w_live + w_hb + w_sync + w_catchup));
             let st: Value = if r < 22 {
                 let w = writers.iter().filter(|w| active.contains(w)).cloned().collect::<Vec<_>>();
                 if w.is_empty() { json!({"a": "Nop"}) } else {
@@ -174,12 +190,11 @@ fn drive(cfgv: &Value, wc: WorldCfg, out: &mut impl Write) {
                 let k = keys.choose(&mut rng).unwrap().clone();
                 vc += 1;
                 let v = if nvals > 0 { format!("v{}", rng.random_range(1..=nvals)) } else { format!("v{vc}") };
-                match rng.random_range(0..(8 + 2 * w_ttl)) {
-                    0..=4 => json!({"a": "Set", "n": n, "k": k, "v": v}),
-                    5..=7 => json!({"a": "Delete", "n": n, "k": k, "v": ""}),
-                    8 => json!({"a": "SetTtl", "n": n, "k": k, "v": v}),
-                    _ => json!({"a": "DeleteTtl", "n": n, "k": k, "v": ""}),
-                } }
+                let pick = rng.random_range(0..(5 + w_del + 2 * w_ttl));
+                if pick < 5 { json!({"a": "Set", "n": n, "k": k, "v": v}) }
+                else if pick < 5 + w_del { json!({"a": "Delete", "n": n, "k": k, "v": ""}) }
+                else if pick < 5 + w_del + w_ttl { json!({"a": "SetTtl", "n": n, "k": k, "v": v}) }
+                else { json!({"a": "DeleteTtl", "n": n, "k": k, "v": ""}) } }
             } else if r < 42 {
                 let p = active.choose(&mut rng).unwrap().clone();
                 if p == n { json!({"a": "Nop"}) } else { json!({"a": "CreateSyn", "n": n, "to": p}) }
@@ -207,6 +222,44 @@ fn drive(cfgv: &Value, wc: WorldCfg, out: &mut impl Write) {
                 json!({"a": "Liveness", "n": n})
             } else if r < 100 + w_live + w_hb {
                 json!({"a": "Heartbeat", "n": n})
+            } else if r >= 100 + w_live + w_hb + w_sync {
+                // external catch-up: a snapshot of some peer's copy of x, sometimes with
+                // inconsistent max version / watermark, sometimes arbitrary entries
+                let x = nodes.choose(&mut rng).unwrap().clone();
+                let p = active.choose(&mut rng).unwrap().clone();
+                if x == n { json!({"a": "Nop"}) } else {
+                    let pv = run.world.project(&p);
+                    let c = pv["ns"].get(&x).cloned().unwrap_or(json!({"kv": {}, "max": 0, "gc": 0}));
+                    let mut kvs = serde_json::Map::new();
+                    if let Some(o) = c["kv"].as_object() {
+                        for (k, e) in o {
+                            if !cu_garbage || rng.random_range(0..8) != 0 {
+                                kvs.insert(k.clone(), json!({"val": e["val"], "ver": e["ver"], "st": e["st"]}));
+                            }
+                        }
+                    }
+                    let mut max = c["max"].as_u64().unwrap_or(0);
+                    let mut gc = c["gc"].as_u64().unwrap_or(0);
+                    match if cu_garbage { rng.random_range(0..6) } else { 5 } {
+                        0 => { max = rng.random_range(0..max + 3); }
+                        1 => { gc = rng.random_range(0..max + 3); }
+                        2 => {
+                            let used: Vec<u64> = kvs.values().map(|e| e["ver"].as_u64().unwrap_or(0)).collect();
+                            let ver = max + 1 + rng.random_range(0..2);
+                            if !used.contains(&ver) {
+                                let k = keys.choose(&mut rng).unwrap().clone();
+                                vc += 1;
+                                let stn = ["Set", "Del", "Ttl"][rng.random_range(0..3)];
+                                kvs.insert(k, json!({"val": format!("c{vc}"), "ver": ver, "st": stn}));
+                                if rng.random_bool(0.5) { max = ver; }
+                            }
+                        }
+                        _ => {}
+                    }
+                    // a deleted entry carries the empty value (as every real tombstone does)
+                    for (_, e) in kvs.iter_mut() { if e["st"] == "Del" { e["val"] = json!(""); } }
+                    json!({"a": "Catchup", "n": n, "x": x, "kvs": kvs, "max": max, "gc": gc})
+                }
             } else {
                 // start a handshake and let it run to completion right away (3 deliveries follow
                 // through the in-flight pool with high probability because it is the newest entry)
